@@ -93,6 +93,10 @@ type apCase struct {
 	clientAddr *types.HostAddress
 	override   string
 	decodePAC  bool
+
+	// a replay that differs from the first presentation in the unprotected part of the request: the service
+	// name written in the ticket (nil = byte-identical replay)
+	replayAs []string
 }
 
 func baseCase(et int32) apCase {
@@ -134,6 +138,7 @@ func (c apCase) describe() string {
 	add(c.flipAuth >= 0, "flipauth")
 	add(c.truncAuth > 0, "truncauth")
 	add(c.authKey != nil, "authkey")
+	add(c.replayAs != nil, "replay-as="+strings.Join(c.replayAs, "/"))
 	add(strings.Join(c.sname, "/") != strings.Join(d.sname, "/"), "sname="+strings.Join(c.sname, "/"))
 	add(strings.Join(c.cname, "/") != strings.Join(d.cname, "/"), "cname="+strings.Join(c.cname, "/"))
 	add(c.kvno != 1, fmt.Sprintf("kvno=%d", c.kvno))
